@@ -30,3 +30,12 @@ package data
 //@   requires 0 <= loc && loc < x.len
 //@   ensures x.cells == upd(old(x.cells), loc, val)
 //@   assigns x.cells
+
+//@ iface CopyFrom(x, other)
+//@   requires x.len == other.len
+//@   ensures forall(k, 0, x.len, x.at(k) == other.at(k))
+//@   assigns x.cells
+
+//@ iface Unroll(x) returns (r)
+//@   ensures len(r) == x.len && forall(k, 0, x.len, r[k] == x.at(k))
+//@   assigns nothing
